@@ -62,6 +62,26 @@ short = {
  'C18-d': ('missing `eni-config` tolerated when filling defaults', 'config map deleted while a pod needs defaults'),
  'C19-d': ('failed metadata lookup no longer aborts `initInstanceLimit`', 'stale annotation + metadata hiccup'),
  'C20-d': ('chainer guard tests `edtSupport`', 'eBPF kernel without the EDT helper'),
+ 'C01-e': ('`canDispose` tests the IPv4 set twice', 'interface whose only held addresses are IPv6, pool shrink'),
+ 'C02-e': ('`releaseUnUsedIP` computes the IPv6 usage from the IPv4 map', 'interface with IPv6-only owners, surplus larger than the interface'),
+ 'C03-e': ('same operand slip as C02-e', 'IPv6-only node, two gc rounds'),
+ 'C04-e': ('repeated-ADD lookup uses the wrong resource type', 'two interfaces, repeated ADD of a pod on the second one'),
+ 'C05-e': ('`load` looks the stored IPv6 address up in the IPv4 set', 'dual stack, restart'),
+ 'C06-e': ('`canDispose` tests the IPv4 queue twice', 'IPv6 request pending, no IPv4 request, no address in use'),
+ 'C07-e': ('dispose worker unassigns a truncated batch but forgets the whole list', 'more deleting addresses than one batch'),
+ 'C08-e': ('IPv6 left quota computed from the IPv4 per-adapter limit', 'IPv6 limit below IPv4 limit, interface at its IPv6 limit'),
+ 'C09-e': ('lookup-error branch inverted in `gcPods`', 'API error for an exited pod'),
+ 'C10-e': ('`continue` turned into `break` when subtracting referenced interfaces', 'multi-interface record whose first interface is not a candidate'),
+ 'C11-e': ('`haveFixedIP` overwritten per allocation', 'mixed fixed/elastic allocations, elastic last'),
+ 'C12-e': ('default-route flag overwritten instead of accumulated', 'three interfaces, default route not on the last'),
+ 'C13-e': ('IPv6 default route added regardless of the default-route flag (exclusive ENI)', 'secondary interface of a multi-network IPv6 pod'),
+ 'C14-e': ('number of key words rounded down', 'IPv6 prefix not a multiple of 32'),
+ 'C15-e': ('unit index taken on the untrimmed string', 'leading white space before a value with unit'),
+ 'C16-e': ('tags sorted by value instead of key', 'two tags with equal values, map order'),
+ 'C17-e': ('`<= 1` for "no free address" in the in-zone loop', 'candidate with exactly one free address'),
+ 'C18-e': ('intersection re-seeded whenever it is empty', 'three networks with an empty prefix intersection'),
+ 'C19-e': ('low-watermark clamp tests the configured instead of the computed minimum', 'min_eni set, min_eni x addresses above the maximum'),
+ 'C20-e': ('chainer guard tests `edtSupport`', 'eBPF kernel without the EDT helper'),
 }
 rows = []
 for d in sorted(glob.glob('/verif/seeded/*')):
